@@ -132,7 +132,10 @@ reftable_new_writer(ssize_t (*writer_func)(void *, const void *, size_t),
 		abort();
 	}
 	wp->last_key = reftable_empty_strbuf;
-	wp->block = reftable_calloc(opts->block_size);
+	/* block_writer_finish() compresses log blocks in place; poorly
+	 * compressible data gets longer, so leave room for zlib's worst
+	 * case beyond the block size. */
+	wp->block = reftable_calloc(compressBound(opts->block_size) + 32);
 	wp->write = writer_func;
 	wp->write_arg = writer_arg;
 	wp->opts = *opts;
